@@ -23,7 +23,10 @@ func (s *PFCPSession) CreateQER(q qer) {
 func (s *PFCPSession) UpdateQER(q qer) error {
 	for idx, v := range s.qers {
 		if v.qerID == q.qerID {
+			// an update does not change the role (application/session) of the QER
+			q.qosLevel = v.qosLevel
 			s.qers[idx] = q
+
 			return nil
 		}
 	}
@@ -65,7 +68,24 @@ func findItemIndex(slice []uint32, val uint32) int {
 }
 
 // MarkSessionQer : identify and Mark session QER with flag.
-func (s *PFCPSession) MarkSessionQer(qers []qer) {
+// newQers are the QERs created by the message being handled, msgQers all the QERs it
+// carries (created and updated).
+// A QER that already is the session QER stays so as long as it qualifies; otherwise
+// only a QER created by the message can become the session QER, so that existing
+// QERs never change their role (their entries would stay behind in the other QoS table).
+// The session QER is marked in the session (s.qers); the QERs of the message take
+// over the role they have in the session.
+func (s *PFCPSession) MarkSessionQer(newQers []qer, msgQers []qer) {
+	defer func() {
+		for i := range msgQers {
+			for _, q := range s.qers {
+				if q.qerID == msgQers[i].qerID {
+					msgQers[i].qosLevel = q.qosLevel
+				}
+			}
+		}
+	}()
+
 	sessQerIDList := make([]uint32, 0)
 
 	// A session without PDRs has no session QER to look for.
@@ -80,7 +100,7 @@ func (s *PFCPSession) MarkSessionQer(qers []qer) {
 	// If PDRs have no QERs, then no marking for session qers is needed.
 	// If PDRS have one QER and all PDRs point to same QER, then consider it as application qer.
 	// If number of QERS is 2 or more, then search for session QER
-	if (len(sessQerIDList) < 1) || (len(qers) < 2) {
+	if (len(sessQerIDList) < 1) || (len(s.qers) < 2) {
 		logger.PfcpLog.Infoln("need atleast 1 QER in PDR or 2 QERs in session to mark session QER")
 		return
 	}
@@ -93,7 +113,8 @@ func (s *PFCPSession) MarkSessionQer(qers []qer) {
 			return
 		}
 
-		copy(sessQerIDList, sList)
+		// only QERs referenced by every PDR remain candidates
+		sessQerIDList = sList
 	}
 
 	// Loop through qer list and mark qer which matches
@@ -105,7 +126,7 @@ func (s *PFCPSession) MarkSessionQer(qers []qer) {
 	//    if len(sessQerIDList) = 3 : TBD (UE level QER handling).
 	//                                Currently handle same as len = 2
 	var (
-		sessionIdx int
+		found      bool
 		sessionMbr uint64
 		sessQerID  uint32
 	)
@@ -114,24 +135,47 @@ func (s *PFCPSession) MarkSessionQer(qers []qer) {
 		logger.PfcpLog.Warnln("qer id list size above 3 is not supported")
 	}
 
-	for idx, qer := range qers {
-		if contains(sessQerIDList, qer.qerID) {
-			if qer.ulGbr > 0 || qer.dlGbr > 0 {
-				logger.InitLog.Infoln("do not consider qer with non zero gbr value for session qer")
-				continue
-			}
+	// A QER that already is the session QER stays the session QER as long as it
+	// qualifies: creating or updating other QERs must not re-label it.
+	for _, qer := range s.qers {
+		if qer.qosLevel == SessionQos && contains(sessQerIDList, qer.qerID) &&
+			qer.ulGbr == 0 && qer.dlGbr == 0 {
+			found = true
+			sessQerID = qer.qerID
 
-			if qer.ulMbr >= sessionMbr {
-				sessionIdx = idx
-				sessQerID = qer.qerID
-				sessionMbr = qer.ulMbr
+			break
+		}
+	}
+
+	if !found {
+		for _, qer := range newQers {
+			if contains(sessQerIDList, qer.qerID) {
+				if qer.ulGbr > 0 || qer.dlGbr > 0 {
+					logger.InitLog.Infoln("do not consider qer with non zero gbr value for session qer")
+					continue
+				}
+
+				if !found || qer.ulMbr >= sessionMbr {
+					found = true
+					sessQerID = qer.qerID
+					sessionMbr = qer.ulMbr
+				}
 			}
 		}
 	}
 
+	// no candidate qualifies: there is no session QER
+	if !found {
+		return
+	}
+
 	logger.PfcpLog.Infoln("session QER found. QER ID:", sessQerID)
 
-	qers[sessionIdx].qosLevel = SessionQos
+	for idx := range s.qers {
+		if s.qers[idx].qerID == sessQerID {
+			s.qers[idx].qosLevel = SessionQos
+		}
+	}
 
 	for i := range s.pdrs {
 		// remove common qerID from pdr's qer list
